@@ -455,7 +455,7 @@ Proof.
 Qed.
 
 Lemma session_refuted : exists t now ch f,
-  res_ret (step_repo t now ch f) <> res_ret (step_repo t now (erase ch) f).
+  res_ret (step false t now ch f) <> res_ret (step false t now (erase ch) f).
 Proof.
   exists [], 20, [EAttrs [AStruct (mk_rec 0 "" 0 "m@e" 0 0 None)]; ESession],
          (FInit [CMap [(CName, VStr "zz")]]).
@@ -463,8 +463,17 @@ Proof.
 Qed.
 
 Lemma session_partial t now ch f : session_safe ch = true ->
-  step_repo t now ch f = step_repo t now (erase ch) f.
+  step false t now ch f = step false t now (erase ch) f.
 Proof. intros H. apply step_erase. now right. Qed.
 
-Lemma session_patched t now ch f : step true t now ch f = step true t now (erase ch) f.
+Lemma session_invariant t now ch f : step_repo t now ch f = step_repo t now (erase ch) f.
 Proof. apply step_erase. now left. Qed.
+
+Lemma init_reading_repo t now ch ic :
+  step_repo t now ch (FInit ic) = ref_init t (ch_conds ch ++ ic) (ch_attrs ch) (ch_assigns ch).
+Proof. apply init_reading. now left. Qed.
+
+Lemma foc_reading_repo t now ch ic :
+  step_repo t now ch (FFoc ic)
+  = ref_foc t now (ch_conds ch) (ch_conds ch ++ ic) (ch_attrs ch) (ch_assigns ch).
+Proof. apply foc_reading. now left. Qed.
